@@ -132,17 +132,14 @@ def l2 (s : State) : String :=
   s!"n={s.net.fds.size} sp={sp} fds={dash fds ","} S={dash socks ","} mq={s.imm.minq} q={dash qs ";"} " ++
   s!"tm={dash (tms.map toString) ","} clk={s.clock} int={if s.intr then 1 else 0}"
 
-def runFuel : Nat := cbCap + 4
+def showEvs (evs : List Ev) : String := if evs.isEmpty then "ok" else " ".intercalate (evs.map showEv)
 
+/-- thin by construction: parse, `Model.Events.stepOp`, print (`insertSorted` in `l2` only puts a set into a
+canonical order for printing) -/
 def step (s : State) (toks : List String) : State × String :=
   match parseTop toks with
   | none => (s, "bad-op")
-  | some t =>
-    let s0 := { s with trace := [] }
-    let s1 := stepTop runFuel s0 t
-    let evs := s1.trace.reverse.map showEv
-    let l1 := if evs.isEmpty then "ok" else " ".intercalate evs
-    ({ s1 with trace := [] }, s!"{l1} | {l2 s1}")
+  | some t => let r := stepOp s t; (r.1, s!"{showEvs r.2} | {l2 r.1}")
 
 def main (_args : List String) : IO UInt32 := loop ({} : State) step
 
